@@ -6,7 +6,7 @@ mod __verif_c26 {
     use super::*;
     use crate::planner::WindowFrame;
 
-    const PMAX: usize = 8;
+    const PMAX: usize = 64;
 
     fn any_bound() -> FrameBound {
         let k: u8 = kani::any();
@@ -42,14 +42,14 @@ mod __verif_c26 {
         }
     }
 
-    fn rows_frame_case(start: FrameBound, end: FrameBound) {
+    fn rows_frame_case(start: FrameBound, end: FrameBound, pmax: usize) {
         // the binder rejects these two before execution ("rejected at bind")
         kani::assume(!matches!(start, FrameBound::UnboundedFollowing));
         kani::assume(!matches!(end, FrameBound::UnboundedPreceding));
         let ps: usize = kani::any();
         let pe: usize = kani::any();
         let i: usize = kani::any();
-        kani::assume(ps <= i && i < pe && pe <= PMAX);
+        kani::assume(ps <= i && i < pe && pe <= pmax);
         let w = WindowExpr {
             func: WindowFunc::RowNumber,
             args: Vec::new(),
@@ -108,7 +108,7 @@ mod __verif_c26 {
         if let FrameBound::Preceding(k) | FrameBound::Following(k) = &end {
             kani::assume(*k < (1u64 << 32));
         }
-        rows_frame_case(start, end);
+        rows_frame_case(start, end, 8);
     }
 
     // @harness tiers=quick,thorough
@@ -118,7 +118,17 @@ mod __verif_c26 {
     #[kani::proof]
     #[kani::unwind(3)]
     fn rows_frame_any_offsets() {
-        rows_frame_case(any_bound(), any_bound());
+        rows_frame_case(any_bound(), any_bound(), 8);
+    }
+
+    // @harness tiers=thorough timeout=1200
+    // @encodes physical::operators::window::frame_range
+    // @bounds as rows_frame_any_offsets with partitions of up to 64 rows
+    // @oracle as rows_frame_small_offsets
+    #[kani::proof]
+    #[kani::unwind(3)]
+    fn rows_frame_any_offsets_partitions_up_to_64() {
+        rows_frame_case(any_bound(), any_bound(), 64);
     }
 
     /// RANGE frames with a numeric offset: one BIGINT ORDER BY key, three rows, no NULLs.
@@ -194,7 +204,7 @@ mod __verif_c26 {
         std::mem::forget(order);
     }
 
-    // @harness tiers=thorough timeout=2400
+    // @harness tiers=experimental timeout=2400
     // @encodes physical::operators::window::range_offset_bound, physical::operators::window::range_offset_end, physical::operators::window::range_frame_key, physical::operators::window::range_key
     // @bounds RANGE frames with offset over one BIGINT ORDER BY key ASC: a partition of 3 rows with symbolic sorted keys |key| < 2^20 (ties allowed, no NULLs), every row i, offsets k < 2^20, both `k PRECEDING` and `k FOLLOWING` (iterated concretely)
     // @oracle inclusive SQL bounds in exact integers: j >= start <=> key_j >= cur -/+ k, j < end <=> key_j <= cur -/+ k
@@ -207,7 +217,7 @@ mod __verif_c26 {
         range_case(false, false);
     }
 
-    // @harness tiers=thorough timeout=2400
+    // @harness tiers=experimental timeout=2400
     // @encodes physical::operators::window::range_offset_bound, physical::operators::window::range_offset_end, physical::operators::window::range_frame_key, physical::operators::window::range_key
     // @bounds as range_offset_bounds_ascending with ORDER BY ... DESC
     // @oracle mirrored inclusive bounds
